@@ -184,6 +184,12 @@ Theorem C01_src_rs_read : forall (S : Type) (peer : S -> frame -> S * list frame
   rs_read peer (Datatypes.S f) w st = rs_read_from_src peer (rs_read peer f) w st size.
 Proof. exact @src_rs_read_eq. Qed.
 
+(* readinto(b) with a buffer of cap bytes: read(7) only when nothing is pending, min(cap, pending) bytes handed out,
+   the rest kept *)
+Theorem C01_src_rs_readinto : forall (S : Type) (peer : S -> frame -> S * list (frame)) rf cap (w : world) st,
+  0 <= cap -> rs_readinto peer rf cap w st = rs_readinto_from_src peer rf cap w st.
+Proof. exact @src_rs_readinto_eq. Qed.
+
 (* the exchange itself: which frame is awaited, when the queue is replaced, that ONE request is sent, and that a missing
    response is answered by the abort frame [0x80, 0, 0, 0, code little-endian] with the code in the source text (0x05040000)
    after MAX_RETRIES (regenerated: SDO_MAX_RETRIES) attempts *)
@@ -242,3 +248,4 @@ Print Assumptions C01_src_upload_truncation.
 Print Assumptions C01_src_request_response.
 Print Assumptions C01_src_read_response.
 Print Assumptions C01_src_abort_frame.
+Print Assumptions C01_src_rs_readinto.
